@@ -444,6 +444,32 @@ def _o2(ctx, R):
         if not is_public_entry(f) or is_clone_family(f) or f.name == "__init__":
             continue
         res = PA.results[key]
+        # `self._ports = _reordered(self._ports, value, msg)`: a private helper that validates and hands back the new container is read in
+        # place (its assert is then the guard of the write)
+        cfields = {r.cfield for r in O2_RELATIONS}
+        via = set()
+        for a_ in walk_local(f.node):
+            if isinstance(a_, ast.Assign) and len(a_.targets) == 1 and isinstance(a_.targets[0], ast.Attribute) and a_.targets[0].attr in cfields \
+                    and isinstance(a_.value, ast.Call):
+                fn_ = a_.value.func
+                nm_ = fn_.id if isinstance(fn_, ast.Name) else (fn_.attr if isinstance(fn_, ast.Attribute) and isinstance(fn_.value, ast.Name)
+                                                                 and fn_.value.id in ("self", "cls", f.cls.name if f.cls else "") else None)
+                if nm_ and nm_.startswith("_") and not nm_.startswith("__"):
+                    via.add(nm_)
+            # … and `assert _is_reordering(self._ports, target), msg`: a private predicate that states the guard
+            if isinstance(a_, ast.Assert):
+                t_ = a_.test.operand if isinstance(a_.test, ast.UnaryOp) and isinstance(a_.test.op, ast.Not) else a_.test
+                if isinstance(t_, ast.Call):
+                    fn_ = t_.func
+                    nm_ = fn_.id if isinstance(fn_, ast.Name) else (fn_.attr if isinstance(fn_, ast.Attribute) and isinstance(fn_.value, ast.Name)
+                                                                     and fn_.value.id in ("self", "cls", f.cls.name if f.cls else "") else None)
+                    if nm_ and nm_.startswith("_") and not nm_.startswith("__"):
+                        via.add(nm_)
+        if via:
+            g_ = inlined_view(ctx.P, f, keep=lambda nm, via=frozenset(via): nm not in via)
+            if g_ is not f:
+                res = PA.analyse_view(g_)
+                f = g_
         # (a) balanced exits
         bad_states = {}
         touched = set()
